@@ -19,6 +19,15 @@ TABLE = {
   text="Bounded symbolic execution of the string/number filters through compiled templates: genuinely symbolic strings (<=5 quick / <=7 thorough) and integers for truncate (explicit and policy leeway), center, trim, replace, int, float (with a float()-overflow boundary stub); solver-enumerated strings over small alphabets (exhaustion certified) for indent, wordcount, upper/lower/capitalize/title, wordwrap, striptags, urlencode, plus tables of numeric spellings/special values (inf, nan, 10**400, containers), unit boundaries for filesizeformat, round and format call shapes. Oracles are the documented contracts.",
   note="Trusted: CrossHair models, z3, the float() overflow stub (counterexamples replayed natively). Floating-point rounding of mantissas and strings outside the stated alphabets/lengths are outside the bound.",
   technique="symbolic execution (CrossHair/z3) of filter code on symbolic str/int + solver-exhausted selector strings vs contract oracles"),
+ "C14": dict(
+  text="E2: the live integer_re/float_re objects are translated to z3 regular expressions and language inclusion in Python's literal grammar is decided for all strings <= 64 chars (so int(v,0)/literal_eval cannot disagree with or reject a spelling read as one number). E1 mode B: int literals in 4 bases, float literals (integer/fraction/exponent parts, signs, underscores in every gap) and string literals assembled from a 20-entry table of characters and escape sequences (incl. adjacent literals, both quotes) are enumerated by the solver and pushed through the real lexer/parser/compiler; the oracle is Python's own evaluation of the same spelling; repr() round trips of a value table.",
+  note="Trusted: regex->z3 translation (validated against re on witnesses), z3, Python's literal_eval as reference. The unicode-escape codec is C code: only its result on the enumerated literals is checked. Known finding: backslash followed by a non-ASCII character.",
+  technique="regex-to-SMT language inclusion (z3) + solver-exhausted literal spellings through the real lexer vs Python's evaluation",
+  engine="E2 rx->SMT + E1 CrossHair/z3"),
+ "C28": dict(
+  text="Bounded symbolic execution: split_template_path on symbolic names (search) and on all names <= 5 chars over the alphabet ./\\a: (selector-decoded, exhausted); FileSystemLoader (single and multiple search paths), PackageLoader, ChoiceLoader and PrefixLoader on a scratch tree with a sentinel outside the search path, names of 1-3 segments from a 12-entry fragment table (parent refs, dots, empties, backslash, directories shadowing files), opened files recorded through an audit hook and compared with a reference resolver; choice/prefix resolution order over a symbolic 3x2 presence matrix.",
+  note="Trusted: CrossHair, z3, os.path as reference. Symlinks, Windows separators and zip packages are outside the bound.",
+  technique="symbolic execution (CrossHair/z3) with solver-exhausted name selectors against real loaders + audit hook"),
 }
 NOT_APPLICABLE = {
  "C31": "Not applicable to solver-based checking: compile_templates/ModuleLoader are file-system, zip and import-system effects with no symbolic input to vary; the property quantifies over template sets, not data (DESIGN.md section 5).",
